@@ -256,6 +256,29 @@ theorem outcome_step (g : Cfg) (s : S) (op : Op) (hop : op ≠ .teardown) : Outc
         · exact .same (by simp only [K, Prod.mk.injEq]; exact h1)
         · exact .flipped rfl rfl h1.2.2.1 h1.2.2.2 (Or.inr trivial)
       · exact .same (by simp only [K, Prod.mk.injEq]; exact h1)
+  | evConnEnd =>
+    simp only [step, evConnEnd]
+    split
+    · exact .same rfl
+    · split
+      · exact .same (by rw [K_cResetRead]; rfl)
+      · exact .same rfl
+  | evRearm =>
+    simp only [step, evRearm]
+    split
+    · exact .same rfl
+    · split
+      · exact .same (by rw [K_resetPollerEvent]; rfl)
+      · exact .same rfl
+  | evErrClose =>
+    simp only [step, evErrClose]
+    split
+    · exact .same rfl
+    · split
+      · split
+        · exact .same rfl
+        · exact .flipped rfl rfl rfl rfl (Or.inr trivial)
+      · exact .same rfl
   | flipClosed =>
     simp only [step, flipClosed]
     split
@@ -332,6 +355,27 @@ theorem frozen_step (g : Cfg) (s : S) (op : Op) (hc : s.closed = true) (hop : op
       split
       · exact hz1
       · exact hz1
+  | evConnEnd =>
+    simp only [step, evConnEnd]
+    split
+    · rfl
+    · split
+      · rw [cResetRead_closed g _ (by exact hc)]; rfl
+      · rfl
+  | evRearm =>
+    simp only [step, evRearm]
+    split
+    · rfl
+    · split
+      · rw [resetPollerEvent_closed g _ (by exact hc)]; rfl
+      · rfl
+  | evErrClose =>
+    simp only [step, evErrClose]
+    split
+    · rfl
+    · split
+      · rfl
+      · rfl
   | flipClosed => simp [step, flipClosed, hc]
   | teardown => exact absurd rfl hop
   | setWriteDeadline z => simp [step, setWriteDeadline, hc]
